@@ -14,7 +14,7 @@ The resulting NLP does not contain p at all: x = v = u = 0 satisfies every const
 demanded by the property is the one of the declared dynamics.)
 """
 import sys
-sys.path.insert(0, "/tmp/nx_pydeps")   # networkx, needed by SplineMethod
+sys.path.insert(0, "/verif/pydeps")   # networkx, needed by SplineMethod
 import numpy as np
 import casadi as ca
 from rockit import Ocp, MultipleShooting, SplineMethod
